@@ -821,11 +821,13 @@ def run(chk):
                         "numerical derivative/quadrature tolerances: 1e-5 / 1e-6 relative (measurements)"]
     rng = chk.rng
     drv = core.Driver()
+    from .c15_strict import run_strict
+    run_strict(chk)             # inverse cdf with numpy raising on floating-point errors and warnings as errors
     N = 60 if chk.quick else 600
     cases = [("wb", (0.0, 1.0, 2.0)), ("gm", (1.0, 2.0)), ("gu", (0.0, 1.0))]
     corpus = core.load_corpus("C15")
     for c in corpus:
-        if c.get("check") in ("param-history", "query-history", "long"):
+        if c.get("check") in ("param-history", "query-history", "long", "strict"):
             continue
         key = (c["dist"], tuple(float(v) for v in c["params"]))
         if key not in cases:
@@ -1083,6 +1085,9 @@ def run(chk):
 
 def replay(rp):
     inp = rp["input"]
+    if inp.get("check") == "strict":
+        from .c15_strict import replay_strict
+        return replay_strict(inp)
     if inp.get("check") == "long":
         from . import c15_long
         res = c15_long.eval_long({k: v for k, v in inp.items() if k not in ("index", "arg")})
